@@ -13,6 +13,7 @@ import (
 	"github.com/monshunter/goat/pkg/config"
 	"github.com/monshunter/goat/pkg/maininfo"
 	"github.com/monshunter/goat/pkg/utils"
+	"github.com/monshunter/goat/pkg/verifhook"
 )
 
 // PatchExecutor is the executor for the patch
@@ -287,6 +288,7 @@ func (p *PatchExecutor) apply() error {
 		}
 		// remove goat package if empty, as clean does
 		if empty, err := utils.IsDirEmpty(p.cfg.GoatPackagePath); err == nil && empty {
+			verifhook.Boundary("removeall", p.cfg.GoatPackagePath)
 			os.RemoveAll(p.cfg.GoatPackagePath)
 		}
 		return nil
